@@ -550,9 +550,16 @@ class DestHandler:
             self._check_limit_handling()
         if self.states.step == TransactionStep.WAITING_FOR_MISSING_DATA:
             if packet is not None and pdu_holder.pdu_directive_type == DirectiveType.EOF_PDU:
-                # CFDP 4.7.2: Every EOF PDU must be acknowledged. The sender re-sends the EOF PDU if
-                # the first ACK (EOF) PDU was lost.
-                self._prepare_eof_ack_packet()
+                eof_pdu = pdu_holder.to_eof_pdu()
+                if eof_pdu.condition_code != ConditionCode.NO_ERROR:
+                    # EOF (cancel) PDU: the sender gave up. Missing data is not requested anymore,
+                    # perform the Cancel Response Procedures (this acknowledges the EOF PDU).
+                    self._params.acked_params.deferred_lost_segment_detection_active = False
+                    self._handle_eof_pdu(eof_pdu)
+                else:
+                    # CFDP 4.7.2: Every EOF PDU must be acknowledged. The sender re-sends the EOF
+                    # PDU if the first ACK (EOF) PDU was lost.
+                    self._prepare_eof_ack_packet()
             if packet is not None and pdu_holder.pdu_type == PduType.FILE_DATA:
                 self._handle_fd_pdu(pdu_holder.to_file_data_pdu())
                 if self._params.acked_params.deferred_lost_segment_detection_active:
